@@ -13,11 +13,14 @@ PROP = {
                    "inputs, so this is sampling evidence, not proof."),
     "level_note": ("trusted base: __int128 orientation/winding oracle, the exact 'simple' and 'edge along a side' filters, g++; "
                    "errors within 2 units of the input path or within 2 units of the rectangle boundary are not observable; "
-                   "self-intersecting polygons with an edge along a side are executed but only the unconditional claims are judged"),
+                   "self-intersecting polygons with an edge along a side are executed but only the unconditional claims are judged; "
+                   "orientation is judged on the total signed area of a simple polygon's result (slivers inside the one-unit band skipped)"),
     "technique": "runtime monitoring: exact winding-number reference oracle per input polygon over generated executions",
-    "rule": ("cases = one rectangle and 1-4 polygons; 60% lattice scenes (3-14 vertices on a <=10x10 lattice scaled by an even "
+    "rule": ("cases = one rectangle and 1-4 polygons; 55% lattice scenes (3-14 vertices on a <=10x10 lattice scaled by an even "
              "factor 2..2^36, rectangle on lattice lines, 7 polygon kinds incl. rectilinear walks, boundary-heavy, enclosing, "
-             "spirals), 10% star-shaped polygons enclosing the rectangle, 10% spirals winding round it up to 4 times, 20% general "
+             "spirals), 5% adversarial corner scenes (an edge whose line passes through a rectangle corner exactly or misses it by a "
+             "sub-unit offset built from the Bezout vector of its direction, magnitudes 2^12..2^40, where the library's "
+             "double-precision cross products are dominated by rounding), 10% star-shaped polygons enclosing the rectangle, 10% spirals winding round it up to 4 times, 20% general "
              "polygons (star-shaped, random, star polygons, vertices snapped to sides/corners) at magnitudes 2^6..2^40; every "
              "polygon is clipped alone and judged, multi-polygon cases also in one call (path-by-path clause); a case is "
              "non-trivial iff at least one polygon is not decided by the bounding-box shortcuts (its bounds neither inside nor "
